@@ -201,14 +201,22 @@ mod verif_kani {
         Some((out, m, frac_digits - exp))
     }
 
-    fn parse_upto(len: usize, what: u8) {
+    fn parse_upto(len: usize, what: u8) { parse_upto_alpha(len, what, false) }
+
+    /// `utf8`: the alphabet is {1 . - e 0xC2 0xBD}: it contains the two-byte character U+00BD (and, as invalid
+    /// sequences that are skipped, its lone bytes), so that non-ASCII text next to every structural character is covered
+    fn parse_upto_alpha(len: usize, what: u8, utf8: bool) {
         let bytes: [u8; MAXLEN] = kani::any();
         let n: usize = kani::any();
         kani::assume(n <= len);
         let mut q = 0;
         while q < MAXLEN {
             let c = bytes[q];
-            kani::assume(c == b'0' || c == b'1' || c == b'7' || c == b'+' || c == b'-' || c == b'.' || c == b'e' || c == b'E' || c == b'_' || c == b'x' || c == b' ');
+            if utf8 {
+                kani::assume(c == b'1' || c == b'-' || c == b'.' || c == b'e' || c == 0xC2 || c == 0xBD);
+            } else {
+                kani::assume(c == b'0' || c == b'1' || c == b'7' || c == b'+' || c == b'-' || c == b'.' || c == b'e' || c == b'E' || c == b'_' || c == b'x' || c == b' ');
+            }
             q += 1;
         }
         if let Ok(s) = core::str::from_utf8(&bytes[..n]) {
@@ -259,24 +267,23 @@ mod verif_kani {
     fn parse_small_3_digits() { parse_upto(3, 2) }
 
     #[kani::proof]
+    #[kani::unwind(6)]
+    #[kani::stub(<BigInt as Num>::from_str_radix, stub_bigint_from_str_radix)]
+    #[kani::stub(alloc::fmt::format, stub_format)]
+    fn parse_small_3_utf8() { parse_upto_alpha(3, 0, true) }
+
+    /// any radix other than 10 is refused, whatever the text (one arbitrary ASCII byte; the refusal happens before the text is looked at)
+    #[kani::proof]
     #[kani::unwind(4)]
     #[kani::stub(alloc::fmt::format, stub_format)]
     fn parse_radix_not_10() {
-        let bytes: [u8; 2] = kani::any();
-        if let Ok(s) = core::str::from_utf8(&bytes[..]) {
-            let radix: u32 = kani::any();
-            kani::assume(radix != 10);
-            assert!(BigDecimal::from_str_radix(s, radix).is_err());
-        }
-    }
-
-    #[kani::proof]
-    #[kani::unwind(4)]
-    fn parse_bytes_non_utf8() {
-        let bytes: [u8; 2] = kani::any();
-        if core::str::from_utf8(&bytes[..]).is_err() {
-            assert!(BigDecimal::parse_bytes(&bytes[..], 10).is_none());
-        }
+        let b: u8 = kani::any();
+        kani::assume(b < 128);
+        let bytes = [b];
+        let s = core::str::from_utf8(&bytes[..]).unwrap();
+        let radix: u32 = kani::any();
+        kani::assume(radix != 10);
+        assert!(BigDecimal::from_str_radix(s, radix).is_err());
     }
 }
 // private parsing helpers are reached through these in-crate re-exports (harness only)
